@@ -184,8 +184,13 @@ theorem isNonnegConst_eval (env : Env) (k : WExp) (h : isNonnegConst k = true) :
   | const c => exact ⟨c, by simpa [isNonnegConst] using h, rfl⟩
   | _ => simp [isNonnegConst] at h
 
-theorem safe_eval (F : FieldWidths) (env : Env) (h : GoodEnv F env) :
-    ∀ e, safe F e = true → ∃ x, eval env e = .ok x ∧ 0 ≤ x.v := by
+/-- the fields of the held code named in `L` are present, non-negative and in width -/
+def LastOK (L : FieldWidths) (env : Env) : Prop :=
+  ∀ n w, (L.find? (fun p => p.1 == n)).map (·.2) = some w →
+    ∃ x, env.last n = some x ∧ 0 ≤ x.v ∧ x.v < 2 ^ w ∧ x.n = w
+
+theorem safeL_eval (F L : FieldWidths) (env : Env) (h : GoodEnv F env) (hl : LastOK L env) :
+    ∀ e, safe F L e = true → ∃ x, eval env e = .ok x ∧ 0 ≤ x.v := by
   intro e
   induction e with
   | param n => intro _; exact ⟨_, rfl, h.params n⟩
@@ -195,7 +200,12 @@ theorem safe_eval (F : FieldWidths) (env : Env) (h : GoodEnv F env) :
     obtain ⟨p, hp⟩ := Option.isSome_iff_exists.mp hs
     obtain ⟨x, hx, hv, _, _⟩ := h.fields n p.2 (by rw [hp]; rfl)
     exact ⟨x, by simp only [eval, hx], hv⟩
-  | lastfield n => intro hs; simp [safe] at hs
+  | lastfield n =>
+    intro hs
+    simp only [safe] at hs
+    obtain ⟨p, hp⟩ := Option.isSome_iff_exists.mp hs
+    obtain ⟨x, hx, hv, _, _⟩ := hl n p.2 (by rw [hp]; rfl)
+    exact ⟨x, by simp only [eval, hx], hv⟩
   | const k => intro hs; simp only [safe, decide_eq_true_eq] at hs; exact ⟨_, rfl, hs⟩
   | mk e w ih =>
     intro hs; simp only [safe] at hs
@@ -271,6 +281,10 @@ theorem safe_eval (F : FieldWidths) (env : Env) (h : GoodEnv F env) :
     exact ⟨_, by simp only [eval, hx, bind, Except.bind, pure, Except.pure] <;> rfl, popCount_nonneg _⟩
   | bit a i _ => intro hs; simp [safe] at hs
 
+theorem safe_eval (F : FieldWidths) (env : Env) (h : GoodEnv F env) :
+    ∀ e, safe F [] e = true → ∃ x, eval env e = .ok x ∧ 0 ≤ x.v :=
+  safeL_eval F [] env h (by intro n w hw; simp at hw)
+
 /-! ### static widths -/
 
 theorem sliceCut_form (a : IWV) (st : Int) (hst : 0 < st) (sp : Option Int) (hsp : ∀ k, sp = some k → 0 ≤ k) :
@@ -297,7 +311,7 @@ theorem mkIW_bound {z : Int} (hz : 0 ≤ z) (w : Nat) :
   refine ⟨h2, h3, ?_⟩
   simpa using h4
 
-theorem staticW_eval (F : FieldWidths) (env : Env) (h : GoodEnv F env) (e : WExp) (hs : safe F e = true)
+theorem staticW_eval (F : FieldWidths) (env : Env) (h : GoodEnv F env) (e : WExp) (hs : safe F [] e = true)
     (w : Nat) (hw : staticW F e = some w) (x : IWV) (hx : eval env e = .ok x) :
     x.n = (w : Int) ∧ 0 ≤ x.v ∧ x.v < 2 ^ w := by
   cases e with
